@@ -71,7 +71,7 @@ _de += [
     H("coerce_inf", "C13.K.coerce.infinity", DE, ["Deserializer<'de> for Any::deserialize_f32", "Deserializer<'de> for Any::deserialize_f64"], "\"Infinity\" read as f32/f64 is +inf"),
     H("coerce_neg_inf", "C13.K.coerce.neg_infinity", DE, ["Deserializer<'de> for Any::deserialize_f32", "Deserializer<'de> for Any::deserialize_f64"], "\"-Infinity\" read as f32/f64 is -inf"),
     H("coerce_other_strings_len2", "C13.K.coerce.other_strings_len2", DE, ["Deserializer<'de> for Any::deserialize_f64"],
-      "every string of <= 2 bytes read as f64 reaches the visitor as that string", kind="bounded", bound="strings of <= 2 bytes", timeout=400),
+      "every string of <= 2 bytes read as f64 reaches the visitor as that string", kind="bounded", bound="strings of <= 2 bytes", timeout=900),
     H("coerce_other_strings_len3", "C13.K.coerce.other_strings_len3", DE, ["Deserializer<'de> for Any::deserialize_f64"],
       "every string of <= 3 bytes other than \"NaN\" reaches the visitor as that string", kind="bounded", bound="strings of <= 3 bytes", tier="thorough", timeout=900),
     H("option_view", "C13.K.option_view", DE, ["Deserializer<'de> for Any::deserialize_option"], "null is None, anything else is Some(value)"),
